@@ -19,8 +19,30 @@ struct Out {
     found: usize,
     cases: u64,
     per_class: std::collections::BTreeMap<String, usize>,
+    /// thorough tier: families add a seeded random exploration of a much larger universe to their exhaustive small domain
+    thorough: bool,
+    rng: u64,
 }
 impl Out {
+    fn next(&mut self) -> u64 {
+        // xorshift64*
+        let mut x = self.rng;
+        x ^= x >> 12;
+        x ^= x << 25;
+        x ^= x >> 27;
+        self.rng = x;
+        x.wrapping_mul(0x2545F4914F6CDD1D)
+    }
+    fn below(&mut self, n: usize) -> usize {
+        (self.next() % (n.max(1) as u64)) as usize
+    }
+    fn pick<'a, T>(&mut self, xs: &'a [T]) -> &'a T {
+        &xs[self.below(xs.len())]
+    }
+    fn text(&mut self, alphabet: &[char], max_len: usize) -> String {
+        let n = self.below(max_len + 1);
+        (0..n).map(|_| *self.pick(alphabet)).collect()
+    }
     /// a message may start with `class=<name> `: the obligation the disagreement is reported under (5 lines are printed per class)
     fn cex(&mut self, fam: &str, msg: String) {
         let class = if msg.starts_with("class=") { msg.split(' ').next().unwrap_or("").to_string() } else { String::new() };
@@ -115,6 +137,48 @@ fn semver_family(out: &mut Out) {
             }
             if (a == b) != (want == Ordering::Equal) {
                 out.cex("semver_order", format!("({a} == {b}) = {}, but precedence = {want:?}", a == b));
+            }
+        }
+    }
+    if out.thorough {
+        // random exploration: identifiers over the full identifier alphabet, long lists, large numbers; pairs against the reference
+        // precedence, triples for transitivity, and the greatest element of random lists
+        let alpha: Vec<char> = "0123456789abcxyzABCXYZ-".chars().collect();
+        let nums = [0u64, 1, 2, 9, 10, 11, 99, 100, 4294967295, 4294967296, u64::MAX - 1, u64::MAX];
+        let make = |out: &mut Out| -> SemVer {
+            let mut v = SemVer::new(*out.pick(&nums[..6]), *out.pick(&nums[..6]), *out.pick(&nums));
+            if out.below(4) > 0 {
+                let n = out.below(5);
+                let mut ids = Vec::new();
+                for _ in 0..n {
+                    if out.below(3) == 0 {
+                        ids.push(PreReleaseIdentifier::UInt(*out.pick(&nums)));
+                    } else {
+                        let mut t = out.text(&alpha, 4);
+                        if t.is_empty() || t.chars().all(|c| c.is_ascii_digit()) { t.push('a'); }
+                        ids.push(PreReleaseIdentifier::Str(t));
+                    }
+                }
+                v.pre_release = Some(ids);
+            }
+            if out.below(3) == 0 {
+                v.build_metadata = Some(vec![BuildMetadata::Str(out.text(&alpha, 3) + "b"), BuildMetadata::UInt(*out.pick(&nums))]);
+            }
+            v
+        };
+        let pool: Vec<SemVer> = (0..600).map(|_| make(out)).collect();
+        for _ in 0..60000 {
+            out.cases += 1;
+            let (a, b, c) = (out.pick(&pool).clone(), out.pick(&pool).clone(), out.pick(&pool).clone());
+            let want = sv_precedence(&a, &b);
+            if a.cmp(&b) != want || a.partial_cmp(&b) != Some(want) || (a == b) != (want == Ordering::Equal) {
+                out.cex("semver_order", format!("cmp({a}, {b}) = {:?}, == is {}, SemVer 2.0.0 precedence = {want:?}", a.cmp(&b), a == b));
+            }
+            if a.cmp(&b) != b.cmp(&a).reverse() {
+                out.cex("semver_order", format!("not antisymmetric: cmp({a}, {b}) = {:?}, cmp({b}, {a}) = {:?}", a.cmp(&b), b.cmp(&a)));
+            }
+            if a.cmp(&b) != Ordering::Greater && b.cmp(&c) != Ordering::Greater && a.cmp(&c) == Ordering::Greater {
+                out.cex("semver_order", format!("not transitive: {a} <= {b} <= {c} but {a} > {c}"));
             }
         }
     }
@@ -230,6 +294,46 @@ fn pep440_family(out: &mut Out) {
             }
             if (a == b) != (want == Ordering::Equal) {
                 out.cex("pep440_order", format!("({a} == {b}) = {}, key order = {want:?}", a == b));
+            }
+        }
+    }
+    if out.thorough {
+        let nums32 = [0u32, 1, 2, 9, 10, 11, 100, 4294967295];
+        let labels = [PreReleaseLabel::Alpha, PreReleaseLabel::Beta, PreReleaseLabel::Rc];
+        let alpha: Vec<char> = "0123456789abcxyzABC".chars().collect();
+        let make = |out: &mut Out| -> PEP440 {
+            let n = 1 + out.below(4);
+            let mut v = PEP440::new((0..n).map(|_| *out.pick(&nums32[..6])).collect()).with_epoch(*out.pick(&nums32[..3]));
+            if out.below(2) == 0 { v = v.with_pre_release(*out.pick(&labels), if out.below(3) == 0 { None } else { Some(*out.pick(&nums32)) }); }
+            if out.below(2) == 0 { v = v.with_post(if out.below(3) == 0 { None } else { Some(*out.pick(&nums32)) }); }
+            if out.below(2) == 0 { v = v.with_dev(if out.below(3) == 0 { None } else { Some(*out.pick(&nums32)) }); }
+            if out.below(2) == 0 {
+                let k = 1 + out.below(3);
+                let mut segs = Vec::new();
+                for _ in 0..k {
+                    if out.below(2) == 0 { segs.push(LocalSegment::UInt(*out.pick(&nums32))); } else {
+                        let mut t = out.text(&alpha, 3);
+                        if t.is_empty() || t.chars().all(|c| c.is_ascii_digit()) { t.push('q'); }
+                        segs.push(LocalSegment::Str(t));
+                    }
+                }
+                v.local = Some(segs);
+            }
+            v
+        };
+        let pool: Vec<PEP440> = (0..600).map(|_| make(out)).collect();
+        for _ in 0..60000 {
+            out.cases += 1;
+            let (a, b, c) = (out.pick(&pool).clone(), out.pick(&pool).clone(), out.pick(&pool).clone());
+            let want = pep_key_prec(&a, &b);
+            if a.cmp(&b) != want || (a == b) != (want == Ordering::Equal) {
+                out.cex("pep440_order", format!("cmp({a}, {b}) = {:?}, == is {}, key order = {want:?}   [a={a:?} b={b:?}]", a.cmp(&b), a == b));
+            }
+            if a.cmp(&b) != b.cmp(&a).reverse() {
+                out.cex("pep440_order", format!("not antisymmetric: cmp({a}, {b}) = {:?}, cmp({b}, {a}) = {:?}", a.cmp(&b), b.cmp(&a)));
+            }
+            if a.cmp(&b) != Ordering::Greater && b.cmp(&c) != Ordering::Greater && a.cmp(&c) == Ordering::Greater {
+                out.cex("pep440_order", format!("not transitive: {a} <= {b} <= {c} but {a} > {c}"));
             }
         }
     }
@@ -354,6 +458,35 @@ fn sanitize_family(out: &mut Out) {
         let want = if !input.is_empty() && input.chars().all(|c| c.is_ascii_digit()) { seg_fix(input) } else { String::new() };
         if got != want {
             out.cex("sanitize", format!("Sanitizer::uint().sanitize({input:?}) = {got:?}, expected {want:?}"));
+        }
+    }
+    if out.thorough {
+        // random Unicode-heavy inputs up to length 24 under random settings
+        let alphabet: Vec<char> = "aZ09.-_/ +é٣Ｋſ\u{212a}İ日\t#0".chars().collect();
+        for _ in 0..120000 {
+            out.cases += 1;
+            let input = out.text(&alphabet, 24);
+            let sep = *out.pick(&[".", "-", "_"]);
+            let d = sep.chars().next().unwrap();
+            let (lowercase, keep_zeros) = (out.below(2) == 0, out.below(2) == 0);
+            let max = *out.pick(&[None, None, Some(1usize), Some(2), Some(5), Some(9), Some(40)]);
+            let san = Sanitizer::str(Some(sep), lowercase, keep_zeros, max);
+            let got = san.sanitize(&input);
+            if let Err(why) = is_sanitized(&got, d, lowercase, keep_zeros, max) {
+                out.cex("sanitize", format!("Sanitizer::str(sep={sep:?}, lowercase={lowercase}, keep_zeros={keep_zeros}, max_length={max:?}).sanitize({input:?}) = {got:?}: {why}"));
+                continue;
+            }
+            if max.is_none() {
+                let t = if lowercase { input.to_ascii_lowercase() } else { input.clone() };
+                let r = rj(&t, d);
+                let want = if keep_zeros { r } else { zs(&r, d) };
+                if got != want {
+                    out.cex("sanitize", format!("Sanitizer::str(sep={sep:?}, lowercase={lowercase}, keep_zeros={keep_zeros}, max_length=None).sanitize({input:?}) = {got:?}, runs joined = {want:?}"));
+                }
+            }
+            if san.sanitize(&got) != got {
+                out.cex("sanitize", format!("not idempotent: sanitize({input:?}) = {got:?} (sep={sep:?}, lowercase={lowercase}, keep_zeros={keep_zeros}, max_length={max:?})"));
+            }
         }
     }
 }
@@ -916,7 +1049,7 @@ fn placement_family(out: &mut Out, semver: bool) {
     use zerv::version::zerv::core::{PreReleaseVar, Zerv};
     use zerv::version::zerv::{ZervSchema, ZervVars};
     let fam = if semver { "semver_from_zerv" } else { "pep440_from_zerv" };
-    let cores: Vec<Vec<C>> = vec![
+    let mut cores: Vec<Vec<C>> = vec![
         vec![C::Var(Var::Major), C::Var(Var::Minor), C::Var(Var::Patch)],
         vec![C::Var(Var::Major)],
         vec![],
@@ -930,18 +1063,44 @@ fn placement_family(out: &mut Out, semver: bool) {
         vec![C::Var(Var::Major), C::Str("+7".into()), C::Str(" 8".into()), C::Var(Var::Custom("offset".into())), C::Var(Var::Patch), C::Str("9-".into())],
         vec![C::Str("v1".into()), C::Str("1.2".into()), C::Str("1e3".into()), C::UInt(5), C::Str("٣".into())],
     ];
-    let extras: Vec<Vec<C>> = vec![
+    let mut extras: Vec<Vec<C>> = vec![
         vec![],
         vec![C::Var(Var::Epoch), C::Var(Var::PreRelease), C::Var(Var::Post), C::Var(Var::Dev)],
         vec![C::Var(Var::Dev), C::Str("Mid.5".into()), C::Var(Var::Post), C::UInt(12), C::Var(Var::PreRelease), C::Var(Var::Epoch)],
         vec![C::Var(Var::BumpedBranch), C::Var(Var::PreRelease), C::Var(Var::Distance)],
         vec![C::Var(Var::Post), C::Var(Var::BumpedCommitHashShort), C::Str("".into())],
     ];
-    let builds: Vec<Vec<C>> = vec![
+    let mut builds: Vec<Vec<C>> = vec![
         vec![],
         vec![C::Var(Var::BumpedBranch), C::Var(Var::Distance), C::Var(Var::BumpedCommitHashShort)],
         vec![C::Str("B.01.x".into()), C::UInt(5), C::Var(Var::Dirty)],
     ];
+    if out.thorough {
+        // random component lists (the schema constructor filters the invalid ones)
+        let lits = ["x", "Feat.x", "007", "", "1.2", "#7", "+7", " 8", "A-b_c", "٣", "rc", "0", "4294967296"];
+        let cvars = [Var::Major, Var::Minor, Var::Patch, Var::Distance, Var::Dirty, Var::BumpedBranch, Var::BumpedCommitHashShort, Var::LastTimestamp, Var::Custom("offset".into()), Var::Custom("name".into()), Var::Timestamp("YYYY".into())];
+        let evars = [Var::Epoch, Var::PreRelease, Var::Post, Var::Dev, Var::Distance, Var::BumpedBranch, Var::Custom("name".into())];
+        let mut list = |out: &mut Out, vars: &[Var], max: usize| -> Vec<C> {
+            let n = out.below(max + 1);
+            (0..n).map(|_| match out.below(4) {
+                0 => C::Str(out.pick(&lits).to_string()),
+                1 => C::UInt(*out.pick(&[0u64, 1, 7, 4294967295, 4294967296])),
+                _ => C::Var(out.pick(vars).clone()),
+            }).collect()
+        };
+        for _ in 0..60 {
+            let l = list(out, &cvars, 6);
+            cores.push(l);
+        }
+        for _ in 0..12 {
+            let l = list(out, &evars, 5);
+            extras.push(l);
+        }
+        for _ in 0..4 {
+            let l = list(out, &cvars[3..], 4);
+            builds.push(l);
+        }
+    }
     let mut assignments: Vec<ZervVars> = Vec::new();
     for (maj, min, pat) in [(Some(1u64), Some(2u64), Some(3u64)), (Some(0), None, Some(5)), (None, None, None)] {
         for epoch in [None, Some(0u64), Some(4)] {
@@ -1111,6 +1270,57 @@ fn semver_roundtrip_family(out: &mut Out) {
             }
         }
     }
+    if out.thorough {
+        // random strings generated from the SemVer 2.0.0 grammar (identifiers up to 6 characters, lists up to 4, numbers of any width)
+        let alnum: Vec<char> = "0123456789abcxyzABCXYZ-".chars().collect();
+        let digits: Vec<char> = "0123456789".chars().collect();
+        for _ in 0..60000 {
+            out.cases += 1;
+            let mut number = |out: &mut Out, max: usize| -> String {
+                let mut t = out.text(&digits, max);
+                while t.len() > 1 && t.starts_with('0') { t.remove(0); }
+                if t.is_empty() { t.push('0'); }
+                t
+            };
+            let body_core = format!("{}.{}.{}", number(out, 12), number(out, 3), number(out, 19));
+            let mut pre = String::new();
+            let mut wide = false;
+            if out.below(3) > 0 {
+                let n = 1 + out.below(4);
+                let mut ids = Vec::new();
+                for _ in 0..n {
+                    if out.below(3) == 0 {
+                        let t = number(out, 24);
+                        if t.len() > 19 { wide = true; }
+                        ids.push(t);
+                    } else {
+                        let mut t = out.text(&alnum, 6);
+                        if t.is_empty() || t.chars().all(|c| c.is_ascii_digit()) { t.push('-'); }
+                        ids.push(t);
+                    }
+                }
+                pre = format!("-{}", ids.join("."));
+            }
+            let mut build = String::new();
+            if out.below(3) == 0 {
+                let n = 1 + out.below(3);
+                let ids: Vec<String> = (0..n).map(|_| { let mut t = out.text(&alnum, 5); if t.is_empty() { t.push('0'); } if t.chars().all(|c| c.is_ascii_digit()) && t.len() > 19 { wide = true; } t }).collect();
+                build = format!("+{}", ids.join("."));
+            }
+            let body = format!("{body_core}{pre}{build}");
+            let input = if out.below(4) == 0 { format!("v{body}") } else { body.clone() };
+            let class = if wide { "class=identifier-above-u64-max " } else { "" };
+            match SemVer::from_str(&input) {
+                Err(e) => out.cex(fam, format!("{class}{input:?} matches the SemVer 2.0.0 grammar but was rejected: {e}")),
+                Ok(p) => {
+                    let printed = p.to_string();
+                    if printed != body {
+                        out.cex(fam, format!("{class}{input:?} parsed and printed gives {printed:?}, not the input"));
+                    }
+                }
+            }
+        }
+    }
     for core in ["18446744073709551616.0.0", "0.18446744073709551616.0", "v0.0.99999999999999999999"] {
         out.cases += 1;
         if let Err(e) = SemVer::from_str(core) {
@@ -1146,7 +1356,8 @@ fn pep440_roundtrip_family(out: &mut Out) {
     let posts = [("", ""), ("-1", ".post1"), (".post", ".post0"), ("post5", ".post5"), ("-rev-05", ".post5"), ("_r_0", ".post0"), (".POST.3", ".post3"),
                  ("-4294967296", ".post4294967296"), (".post4294967296", ".post4294967296")];
     let devs = [("", ""), (".dev", ".dev0"), ("dev3", ".dev3"), ("-DEV_03", ".dev3"), (".dev4294967296", ".dev4294967296")];
-    let locals = [("", ""), ("+abc", "+abc"), ("+ABC.1", "+abc.1"), ("+a-b_c", "+a.b.c"), ("+01.x", "+1.x"), ("+4294967296", "+4294967296"), ("+0A.00", "+0a.0"), ("+00000000000000000000001", "+1")];
+    let locals = [("", ""), ("+abc", "+abc"), ("+ABC.1", "+abc.1"), ("+a-b_c", "+a.b.c"), ("+01.x", "+1.x"), ("+4294967296", "+4294967296"), ("+0A.00", "+0a.0"), ("+00000000000000000000001", "+1"),
+                  ("+04294967296", "+4294967296"), ("+x.00099999999999_Y", "+x.99999999999.y")];
     let over = |s: &str| s.split(|c: char| !c.is_ascii_digit()).any(|run| {
         let t = run.trim_start_matches('0');
         t.len() > 10 || (t.len() == 10 && t > "4294967295")
@@ -1440,7 +1651,9 @@ fn ron_roundtrip_family(out: &mut Out) {
 
 fn main() {
     let fam = std::env::args().nth(1).unwrap_or_default();
-    let mut out = Out { found: 0, cases: 0, per_class: Default::default() };
+    let thorough = std::env::args().nth(2).as_deref() == Some("thorough");
+    let seed: u64 = std::env::args().nth(3).and_then(|s| s.parse().ok()).unwrap_or(0);
+    let mut out = Out { found: 0, cases: 0, per_class: Default::default(), thorough, rng: 0x9E3779B97F4A7C15 ^ seed.wrapping_mul(0xD1B54A32D192ED03).wrapping_add(1) };
     std::panic::set_hook(Box::new(|info| {
         if let Ok(mut g) = LAST_PANIC.lock() {
             *g = info.to_string();
